@@ -553,6 +553,10 @@ impl Buffer {
             }
             SauceFileType::Bin => {
                 data_type = SauceDataType::BinaryText;
+                // the record stores width / 2 (0 means "unknown"): an odd width or a width below 2 can't be carried
+                if self.get_width() < 2 || self.get_width() % 2 != 0 {
+                    return Err(SauceError::BinFileOddWidth(self.get_width()).into());
+                }
                 let w = self.get_width() / 2;
                 if w > u8::MAX as i32 {
                     return Err(SauceError::BinFileWidthLimitExceeded(w).into());
